@@ -128,6 +128,7 @@ type ModItem struct {
 	Contents bool   // contents(expr)
 	X        Expr   // location expression (field path) or map expr for contents
 	Raw      string // for coarse items: type/field text
+	Cond     Expr   // optional " if C": the item belongs to the frame only when C holds in the pre-state
 }
 
 type FuncSpec struct {
@@ -984,6 +985,10 @@ func parseSpecFile(path string, pkg string) (sf *SpecFile, err error) {
 			for _, it := range splitTop(rc.text, ',') {
 				it = strings.TrimSpace(it)
 				mi := ModItem{Text: it}
+				if k := strings.LastIndex(it, ") if "); k >= 0 && !strings.HasPrefix(it, "all ") {
+					mi.Cond = mustExpr(it[k+5:], where)
+					it = strings.TrimSpace(it[:k+1])
+				}
 				switch {
 				case strings.HasPrefix(it, "all "):
 					mi.Coarse = true
